@@ -3,6 +3,10 @@
 
 /// stand-in for std::borrow::Cow<'a, str> (only the str instantiation is used by the crate)
 pub enum Cow<'a, B: ?Sized + 'a> { Borrowed(&'a B), Owned(String) }
+impl<'a, B: ?Sized> Clone for Cow<'a, B> { #[verifier::external_body] fn clone(&self) -> (r: Self) ensures r == *self { unimplemented!() } }
+impl<'a, B: ?Sized> std::fmt::Debug for Cow<'a, B> { #[verifier::external_body] fn fmt(&self, f: &mut std::fmt::Formatter<'_>) -> std::fmt::Result { unimplemented!() } }
+impl<'a, B: ?Sized> PartialEq for Cow<'a, B> { #[verifier::external_body] fn eq(&self, other: &Self) -> bool { unimplemented!() } }
+impl<'a, B: ?Sized> Eq for Cow<'a, B> {}
 pub open spec fn cow_bytes(c: Cow<'_, str>) -> Seq<u8> {
     match c { Cow::Borrowed(s) => s.spec_bytes(), Cow::Owned(s) => str_bytes(s@) }
 }
@@ -148,3 +152,67 @@ pub fn option_string_as_deref(o: &Option<String>) -> (r: Option<&str>)
 pub fn option_str_to_string(o: Option<&str>) -> (r: Option<String>)
     ensures o is None ==> r is None, o is Some ==> r is Some && r->Some_0@ == o->Some_0@
 { unimplemented!() }
+
+// ---- byte-slice idioms of the Authorization header parser ----
+/// `s.splitn(2, |c| *c == sep).collect::<Vec<&[u8]>>()`
+#[verifier::external_body]
+pub fn bytes_splitn2<'a>(s: &'a [u8], sep: u8) -> (r: Vec<&'a [u8]>)
+    ensures
+        first_index(s@, sep, 0) >= s@.len() ==> r@.len() == 1 && r@[0]@ == s@,
+        first_index(s@, sep, 0) < s@.len() ==> r@.len() == 2 && r@[0]@ == split_first(s@, sep).0 && r@[1]@ == split_first(s@, sep).1,
+{ unimplemented!() }
+/// `s.split(|c| *c == sep)` materialised
+#[verifier::external_body]
+pub fn bytes_split_to_vec<'a>(s: &'a [u8], sep: u8) -> (r: Vec<&'a [u8]>)
+    ensures r@.len() == split(s@, sep).len(), forall|i: int| 0 <= i < r@.len() ==> (#[trigger] r@[i])@ == split(s@, sep)[i],
+{ unimplemented!() }
+/// `a != b` on byte slices
+#[verifier::external_body]
+pub fn bytes_ne(a: &[u8], b: &[u8]) -> (r: bool)
+    ensures r == (a@ != b@)
+{ unimplemented!() }
+/// `s.split(|c| *c == sep).map(latin1_to_string).collect::<Vec<String>>()`
+#[verifier::external_body]
+pub fn bytes_split_latin1(s: &[u8], sep: u8) -> (r: Vec<String>)
+    ensures r@.len() == split(s@, sep).len(), forall|i: int| 0 <= i < r@.len() ==> (#[trigger] r@[i])@ == latin1(split(s@, sep)[i]),
+{ unimplemented!() }
+/// `s.split(c).map(|s| s.to_string()).collect::<Vec<String>>()` on a String
+#[verifier::external_body]
+pub fn string_split_to_strings(s: &String, c: char) -> (r: Vec<String>)
+    requires (c as u32) < 128
+    ensures r@.len() == split(str_bytes(s@), c as u8).len(), forall|i: int| 0 <= i < r@.len() ==> str_bytes(#[trigger] r@[i]@) == split(str_bytes(s@), c as u8)[i],
+{ unimplemented!() }
+/// `v.sort()` for Vec<String>: a permutation sorted by String's Ord (byte-wise lexicographic)
+#[verifier::external_body]
+pub fn sort_strings(v: &mut Vec<String>)
+    ensures
+        vals_bytes(final(v)@).to_multiset() == vals_bytes(old(v)@).to_multiset(),
+        vstd::relations::sorted_by(vals_bytes(final(v)@), |a: Seq<u8>, b: Seq<u8>| bytes_le(a, b)),
+{ unimplemented!() }
+/// `v.contains(&s)` for Vec<String>
+#[verifier::external_body]
+pub fn strings_contain(v: &Vec<String>, s: &String) -> (r: bool)
+    ensures r == vals_bytes(v@).contains(str_bytes(s@))
+{ unimplemented!() }
+/// `a.starts_with(&b)` for Strings
+#[verifier::external_body]
+pub fn string_starts_with(a: &String, b: &String) -> (r: bool)
+    ensures r == str_bytes(b@).is_prefix_of(str_bytes(a@))
+{ unimplemented!() }
+/// `cow.to_lowercase()` (Cow<str> derefs to str)
+#[verifier::external_body]
+pub fn cow_to_lowercase(c: &Cow<'_, str>) -> (r: String)
+    ensures all_ascii(cow_bytes(*c)) ==> str_bytes(r@) == lower(cow_bytes(*c))
+{ unimplemented!() }
+/// `v.join(" ")` for Vec<&str> (error message assembly)
+#[verifier::external_body]
+pub fn strs_join(v: &Vec<&'static str>, sep: &str) -> (r: String)
+{ unimplemented!() }
+
+// ---- HashMap<String, V> looked up with a &str key (String: Borrow<str>; equal text = same key) ----
+pub broadcast axiom fn axiom_string_of_str_bytes(k: &str)
+    ensures str_bytes(string_of_bytes(#[trigger] k.spec_bytes())@) == k.spec_bytes();
+pub broadcast axiom fn axiom_contains_str_key<V>(m: Map<String, V>, k: &str)
+    ensures #[trigger] contains_borrowed_key::<String, V, str>(m, k) <==> m.contains_key(string_of_bytes(k.spec_bytes()));
+pub broadcast axiom fn axiom_maps_str_key_to_value<V>(m: Map<String, V>, k: &str, v: V)
+    ensures #[trigger] maps_borrowed_key_to_value::<String, V, str>(m, k, v) <==> m.contains_key(string_of_bytes(k.spec_bytes())) && m[string_of_bytes(k.spec_bytes())] == v;
